@@ -177,6 +177,23 @@ Definition k_zone_edge (st : store) (p : lop) : bool :=
                                      | Some false => existsb (fun x => existsb (String.eqb x) (plan_edge_vars p)) (expr_props e)
                                      | _ => false end
                     | _ => false end) (subplans p).
+(** C10-K9: the zone-map check prunes on a [<>] leaf because min = max = literal, while the column
+    also holds NULLs or values that are not comparable with the literal (they never move min/max,
+    but [<>] is true of them) *)
+Fixpoint ne_leaves (e : lexpr) : list (string * val) :=
+  match e with
+  | EAnd a b | EOr a b => ne_leaves a ++ ne_leaves b
+  | ECmp ONe (EProp _ k) (ELit v) | ECmp ONe (ELit v) (EProp _ k) => [(k, v)]
+  | _ => []
+  end.
+Definition zone_ne_odd (st : store) (e : lexpr) : bool :=
+  existsb (fun kv => match lookup (fst kv) (zcols st) with
+                     | Some c => existsb (fun v' => match zcmp v' (snd kv) with None => true | Some _ => false end) (zhist c)
+                     | None => false end) (ne_leaves e).
+Definition k_zone_ne (st : store) (p : lop) : bool :=
+  existsb (fun s => match s with
+                    | LFilter e _ => match zone_check st e with Some false => zone_ne_odd st e | _ => false end
+                    | _ => false end) (subplans p).
 (** predicate is exactly a conjunction of equalities [x.k = literal] on the scan variable *)
 Fixpoint only_eq_conds (x : string) (p : lexpr) : bool :=
   match p with
@@ -219,11 +236,14 @@ Definition range_applies (s : lop) : option (string * list val) :=
       end
   | _ => None
   end.
-(** C10-K4: the range path with mixed Int/Float (value_in_range compares same-type only) *)
+(** C10-K4: the range path decides with compare_values_for_range (same type only, Bool included)
+    what the filter decides with compare_values (Int/Float mixed, no Bool): a literal of the other
+    numeric kind than a stored value, or a Bool literal *)
+Definition is_bool (v : val) : bool := match v with VBool _ => true | _ => false end.
 Definition k_range_num (st : store) (p : lop) : bool :=
   existsb (fun s => match range_applies s with
                     | Some (k, vs) => negb (match index_applies st s with Some _ => true | None => false end)
-                                      && existsb (num_mix st k) vs
+                                      && existsb (fun v => num_mix st k v || is_bool v) vs
                     | None => false end) (subplans p).
 (** the expand chains a factorized planner treats as one operator: (base, steps) *)
 Fixpoint chain_steps (p : lop) : list step * lop :=
@@ -262,9 +282,19 @@ Fixpoint not_a_path (prev_to : option string) (ss : list step) : bool :=
   end.
 Definition k_fact_not_path (p : lop) : bool :=
   existsb (fun c => not_a_path None (fst c)) (fact_chains p).
+(** C10-K8: the factorized aggregate (COUNT over a chain of >= 2 expands, no grouping) ignores
+    DISTINCT *)
+Definition k_fact_agg_distinct (p : lop) : bool :=
+  existsb (fun s => match s with
+                    | LAggregate [] aggs i =>
+                        Nat.leb 2 (List.length (fst (chain_steps i)))
+                        && forallb (fun a => match simple_count a with Some _ => true | None => false end) aggs
+                        && existsb ag_distinct aggs
+                    | _ => false end) (subplans p).
 Definition k_c10_any (st : store) (p : lop) : bool :=
   k_zone_edge st p || k_index_residual st p || k_index_num st p || k_range_num st p
-  || k_fact_missing_level st p || k_fact_type_case st p || k_fact_not_path p.
+  || k_fact_missing_level st p || k_fact_type_case st p || k_fact_not_path p || k_fact_agg_distinct p
+  || k_zone_ne st p.
 
 (** C08-K11: a FilterOperator directly on top of another one (a labelled target or inline property
     filter under the WHERE filter): the outer predicate is evaluated over all physical rows and its
@@ -284,11 +314,25 @@ Definition k12_cypher_count (l : lang) (q : query) : bool :=
   | _, _ => false
   end.
 
-(** C08-K13: min/max/avg results travel in Int64/Float64 vectors: every NULL after the first and
-    every non-integer (string, float) minimum becomes 0 *)
-Definition k13_typed_result (q : query) : bool :=
+(** C08-K13: count/sum/min/max results travel in Int64 vectors and avg results in Float64 vectors
+    (plan_aggregate l.1661-1680): a string or float minimum and every NULL after the first become
+    0.  The class is exact on the declarative answer: pushing the answer's own rows through vectors
+    of those types changes them. *)
+Definition rows_eqb (a b : list (list val)) : bool :=
+  (fix go (a b : list (list val)) : bool :=
+     match a, b with
+     | [], [] => true
+     | x :: xs, y :: ys => row_vals_eqb x y && go xs ys
+     | _, _ => false
+     end) a b.
+Definition k13_typed_result (st : store) (q : query) : bool :=
   match q_ret q with
-  | RAgg _ aggs => existsb (fun a => match ag_fn a with AMin | AMax | AAvg => true | _ => false end) aggs
+  | RAgg keys aggs =>
+      match answer st (mkQ (q_pat q) (q_where q) (q_ret q) [] None None) with
+      | Ok rs => negb (rows_eqb (map (map cell_val)
+                                     (typed_rows (map (fun _ => TGen) keys ++ map agg_coltype aggs) (map (map CVal) rs))) rs)
+      | Err => false
+      end
   | _ => false
   end.
 
